@@ -341,6 +341,36 @@ theorem renumbering_good (rd : RegionData) (L : Int) :
   · exact numberByPosition_spec _ rd L (candDict_nodup rd)
   · exact numberByPosition_spec _ rd L (subDict_nodup rd)
 
+/-- the tie rule: in a good numbering, areas with the same position and size are numbered in the order of
+    their record-wide numbers (the last component of the sort key decides) -/
+theorem good_ties {rd : RegionData} {L : Int} {areas : List (Int × Loc)} {ν : List (Int × Int)}
+    (h : GoodNumbering rd L areas ν) : TiesByRecordNumber rd L areas ν := by
+  intro a b la lb m m' ha hb hm hm' h1 h2
+  obtain ⟨_, _, hord⟩ := h
+  obtain ⟨hle, heq⟩ := hord a b la lb m m' ha hb hm hm'
+  obtain ⟨hle', _⟩ := hord b a lb la m' m hb ha hm' hm
+  have ka : (positionKey rd L a la).2.2 = a := rfl
+  have kb : (positionKey rd L b lb).2.2 = b := rfl
+  rw [keyLe_iff, ka, kb] at hle hle'
+  have hab : a = b → m = m' := by
+    intro e; subst e; rw [hm] at hm'; injection hm'
+  constructor
+  · intro hlt
+    have h3 : ¬ (m' ≤ m) := by omega
+    have h4 := mt hle'.mpr h3
+    omega
+  · intro hlt
+    have h3 : m ≤ m' := hle.mpr (by omega)
+    have h4 : m ≠ m' := fun e => by have := heq e; omega
+    omega
+
+/-- the three renumberings of a region break ties by record-wide number -/
+theorem renumbering_ties (rd : RegionData) (L : Int) :
+    TiesByRecordNumber rd L ((protoDict rd).map fun kv => (kv.1, kv.2.loc)) (renumbering rd L).protos ∧
+    TiesByRecordNumber rd L (candDict rd) (renumbering rd L).cands ∧
+    TiesByRecordNumber rd L (subDict rd) (renumbering rd L).subs :=
+  ⟨good_ties (renumbering_good rd L).1, good_ties (renumbering_good rd L).2.1, good_ties (renumbering_good rd L).2.2⟩
+
 /-- every written feature carries the numbering qualifiers of its source sent through the region's renumbering -/
 theorem written_refs (rd : RegionData) (rec : BioRecord) (w : Written) (h : writeToGenbank rd rec = .ok w)
     (g : BioFeature) (hg : g ∈ w.extract.features) :
